@@ -705,3 +705,73 @@ Proof.
     cbn [ct contract_for rc_recv_seq rc_chain rc_gs_index] in Hpar; rewrite Hpar; reflexivity.
 Qed.
 End ContractSide.
+
+(* ================================================================== 6. the whole chain *)
+Section EndToEnd.
+Variable recover : bytes -> bytes -> option bytes.
+Variable keccak : bytes -> bytes.
+Variable gov_chain : Z.
+Variable gov_addr : bytes.
+Variable owns : nat -> addr.
+Variable signs : nat -> bytes -> bytes.
+Notation dg := (Processor.dg keccak).
+Notation nstep := (System.nstep recover keccak gov_chain gov_addr owns signs).
+Notation nrun := (System.nrun recover keccak gov_chain gov_addr owns signs).
+Notation nstepf := (fun n x => fst (nstep n x)).
+Hypothesis keccak_len : forall b, length (keccak b) = 32%nat.
+
+(* "at this network step node i broadcasts bytes on which the contract's entry point for kind k returns r and advances its sequence" *)
+Definition ev_executable (i : nat) (k : gov_kind) (ct : ral_contract) (r : rres) (sq : Z) (n : net) (x : nop) : Prop :=
+  target x = i /\ exists b, In (SendVAA b) (snd (nstep n x)) /\ ral_execute recover keccak k ct b = Some (r, Some (RZ sq)).
+
+(* operator request -> conversion -> injection at the operators' nodes -> observations -> quorum -> published bytes -> contract:
+   for every N, every pre-history and every fair window (see [net_gov_publishes]), every request kind k whose conversion produced v *)
+Theorem gov_end_to_end N xs0 xs i G (S : list nat) k c e v local tseq r :
+  (i < N)%nat -> Forall nop_wf xs0 -> Forall nop_wf xs ->
+  let n0 := fst (nrun (ninit N) xs0) in
+  let n1 := fst (nrun n0 xs) in
+  let h := dg v in
+  (* the request *)
+  envelope_ok c e v -> req_wf c e -> payload v <> [] -> accepted_by (module_of k) (action_of k) c e v ->
+  (* the guardians: G in force at node i, nothing known about the digest, a calm window, a quorum S of honest operators who all
+     submit the request; their observations reach node i *)
+  (forall st0, nth_error (nodes n0) i = Some st0 -> cur st0 = Some G /\ alookup h (agg st0) = None) -> ProcSpec.gs_wf G ->
+  (forall x, In x xs -> target x = i -> calm_nop x = true) ->
+  (forall x, In x xs -> target x = i -> no_alias_nop keccak v x) ->
+  NoDup (map owns S) -> (forall j, In j S -> honest_member recover owns signs G j) ->
+  go_quorum (Z.of_nat (length (keys G))) <= Z.of_nat (length S) -> In i S ->
+  happens nstepf (ev_injects i v) n0 xs ->
+  (forall j, In j S -> j <> i -> happens nstepf (ev_delivered owns signs i j h) n0 xs) ->
+  (forall st, nth_error (nodes n1) i = Some st -> forall o, In o (loopq st) -> o_hash o <> h) ->
+  (* the contract: holds G as current set, named by the request; expects a sequence not above the request's *)
+  Forall (fun a => length a = 20%nat) (keys G) -> (length (keys G) <= 255)%nat -> e_gsi e = gidx G -> tseq <= e_seq e ->
+  payload_parser k (contract_for c local tseq G) (RZ (e_tchain e)) (RB (payload v)) = Some r ->
+  happens nstepf (ev_executable i k (contract_for c local tseq G) r (e_seq e + 1)) n0 xs.
+Proof.
+  intros Hi Hw0 Hw. cbv zeta. intros He Hreq Hp Hacc Hst0 Hgwf Hcalm Hna ND Hhon Hq HiS Hinj Hdel Hlq FK LK Hgsi Hts Hpar.
+  pose proof (net_gov_publishes recover keccak gov_chain gov_addr owns signs keccak_len N xs0 xs i G v S Hi Hw0 Hw Hst0 Hgwf Hcalm Hna ND Hhon Hq HiS Hinj Hdel Hlq) as Hpub.
+  assert (Hpos : (0 < length (keys G))%nat).
+  { destruct (Hhon i HiS) as (Hin & _). destruct (keys G); [destruct Hin|cbn [length]; lia]. }
+  apply (happens_impl nstepf _ _) with (2 := Hpub).
+  intros n x (Ht & sg & Hin & Hqv). split; [exact Ht|]. exists (marshal (set_sigs v sg)). split; [exact Hin|].
+  apply (contract_executes_request recover keccak k c e v sg G local tseq r); try assumption. split; assumption.
+Qed.
+
+(* (d) two different requests: their bodies differ; where Keccak does not collide on these two bodies (the one place a collision
+   would matter) their digests differ, so handing the second to a node leaves the aggregation entry of the first untouched *)
+Theorem different_requests_separate_entries sign own v1 v2 st :
+  wf v1 -> wf v2 ->
+  (ts v1, nonce v1, echain v1, tchain v1, eaddr v1, seq v1, cl v1, payload v1) <>
+  (ts v2, nonce v2, echain v2, tchain v2, eaddr v2, seq v2, cl v2, payload v2) ->
+  (keccak (keccak (body v1)) = keccak (keccak (body v2)) -> body v1 = body v2) ->
+  (exists O L, ProcC01Proofs.Inv1 recover keccak O L st) ->
+  dg v1 <> dg v2 /\
+  alookup (dg v1) (agg (fst (Processor.step recover keccak sign own gov_chain gov_addr st (Inject v2)))) = alookup (dg v1) (agg st).
+Proof.
+  intros W1 W2 Hne Hcoll HI.
+  assert (Hd : dg v1 <> dg v2).
+  { intros E. apply (different_requests_different_bodies v1 v2 W1 W2 Hne). apply Hcoll. exact E. }
+  split; [exact Hd|]. apply (other_digest_other_entry recover keccak gov_chain gov_addr sign own st (Inject v2) (dg v1)); [|exact HI].
+  intros E. apply Hd. symmetry. exact E.
+Qed.
+End EndToEnd.
